@@ -451,7 +451,14 @@ fn check(ctx: &Ctx, isa: &Isa, name: &str, prog: &[Stmt], bpl_list: &[usize]) {
         let cert = certify(isa, &built, prog);
         if !cert.problems.is_empty() || !cert.unsupported.is_empty() {
             ctx.count("not_certified");
-            ctx.note(format!("{}: certificate walker could not account for the build: {:?} {:?}", name, cert.problems.first(), cert.unsupported.first()));
+            let what = format!("{}: certificate walker could not account for the build: {:?} {:?}", name, cert.problems.first(), cert.unsupported.first());
+            // a program of the hand-written catalogue that the walker cannot follow is lost coverage (it happened
+            // when a repair renamed the scopes of macro invocations): that must show, not hide in a note
+            if name.starts_with("c02-family") {
+                ctx.note(what);
+            } else {
+                ctx.cap(what);
+            }
             return;
         }
         let chunks: Vec<&Chunk> = cert.chunks.iter().filter(|c| !c.bytes.is_empty()).collect();
